@@ -201,5 +201,24 @@ pub fn run_replay(cfg: &RunCfg, cell_seed: u64, trace: &[TraceEv]) -> RunOutput 
             }
         }
     }
+    if violation.is_some() && std::env::var("YSIM_FINAL").is_ok() {
+        // printed after the fact, so that the execution before the violation is not perturbed
+        // (allocations move addresses, and with them address-keyed hash orders inside yrs)
+        for (i, n) in w.nodes.iter().enumerate() {
+            let txn = yrs::Transact::transact(&n.doc);
+            eprintln!(
+                "-- node {} (client {}) lo={:?} missing={}\n{}   dump: {}",
+                i,
+                n.cfg.client_id,
+                n.lo.to_vec(),
+                yrs::ReadTxn::has_missing_updates(&txn),
+                yrs::verif::blocks_dump(yrs::ReadTxn::store(&txn)),
+                crate::dump::dump_doc(&txn)
+            );
+        }
+        for (i, u) in w.uids.iter().enumerate() {
+            eprintln!("-- u{} by node {} primary={} deps={:?}: {:?}", i, u.node, u.primary, u.deps.to_vec(), decode(&u.payload, Enc::V1));
+        }
+    }
     finish(w, violation, true)
 }
